@@ -11,7 +11,12 @@ use std::path::{Path, PathBuf};
 use std::process::{Command, ExitStatus, Stdio};
 use std::time::{Duration, Instant};
 
-pub const SUPERVISED: &[&str] = &["C04", "C08", "C12", "C13", "C15", "C16", "C19"];
+pub const SUPERVISED: &[&str] = &["C01", "C04", "C05", "C06", "C08", "C09", "C10", "C12", "C13", "C15", "C16", "C19"];
+
+/// Parse-level value properties that are supervised only to vary the BUILD PROFILE (a value that differs, or an
+/// assertion that fires, only with debug assertions / overflow checks on): their dbgchk worker runs a quarter of
+/// the thorough volume (the release worker runs all of it).
+pub const VALUE_PROFILE_IDS: &[&str] = &["C01", "C05", "C06", "C09", "C10"];
 
 /// (target, build mode) pairs: `asan` = AddressSanitizer + debug assertions,
 /// `asanrel` = AddressSanitizer without debug assertions (as shipped).
@@ -728,7 +733,11 @@ pub fn run(ctx: &Ctx) -> i32 {
         let frag = build_dir.join(format!("frag-{}-{}.json", ctx.id, name));
         let _ = std::fs::remove_file(&frag);
         let args = vec![ctx.id.clone(), ctx.tier.name().to_string(), "--fragment".into(), frag.display().to_string()];
-        let r = run_child(&bin, &args, &[], budget);
+        let mut envs: Vec<(&str, String)> = Vec::new();
+        if name == "dbgchk" && ctx.tier.name() == "thorough" && VALUE_PROFILE_IDS.contains(&ctx.id.as_str()) {
+            envs.push(("VERIF_SCALE", format!("{}", ctx.scale * 0.25)));
+        }
+        let r = run_child(&bin, &args, &envs, budget);
         if r.timed_out {
             harness_error.get_or_insert(format!("{name} worker exceeded its time budget (inconclusive)"));
             continue;
@@ -804,6 +813,11 @@ pub fn run(ctx: &Ctx) -> i32 {
     if let Some(e) = derr {
         harness_error.get_or_insert(e);
     }
+    let (l32fv, l32f_report, l32ferr) = l32_file_stage(ctx, &build_dir);
+    violations += l32fv;
+    if let Some(e) = l32ferr {
+        harness_error.get_or_insert(e);
+    }
     if violations == 0 {
         if let Some(e) = harness_error {
             eprintln!("HARNESS-ERROR property={} {}", ctx.id, e);
@@ -853,6 +867,9 @@ pub fn run(ctx: &Ctx) -> i32 {
     }
     if let Some(m) = deep_report {
         coverage.insert("deep_input_stage".into(), m);
+    }
+    if let Some(m) = l32f_report {
+        coverage.insert("limb32_file_stage".into(), m);
     }
     coverage.insert(
         "note".into(),
